@@ -223,7 +223,7 @@ func (c *check) Init(tier string, seed int64) (sp engine.Space) {
 			"using counter()/counters() for a name that has no counter yields 0 and does not instantiate a counter (as the pilots and browsers do); CSS Lists 3 text that instantiates on use is not demanded",
 			"symbolic and alphabetic styles whose explicit range contains 0 fall back for 0 (the algorithms are defined over positive values only)",
 			"the predefined styles are read as data from the UA sheet (tree.UACounterStyle); the definitions of 33 of them (decimal, decimal-leading-zero, roman, alpha/latin, lower-greek, the five bullet styles, cjk-decimal and the 18 numeric scripts) are additionally compared with the specification's own definitions",
-			"representations of more than 60 symbols (symbolic and additive systems) are implementation-defined by the specification (a limit with fallback is allowed): run for crashes, text not compared; above 20000 symbols not run at all (the implementation builds the whole string: a 2^31 counter value would allocate gigabytes)",
+			"representations of more than 60 symbols (symbolic and additive systems) are implementation-defined by the specification (a limit with fallback is allowed): run for crashes, text not compared; above 20000 symbols not run at all, nor is a value run in an environment where a reachable symbolic/additive style could produce more than 5 000 000 symbols for it if its range were ignored (the implementation builds the whole string: a 2^31 counter value allocates gigabytes)",
 			"CSS numbers are float32 in the implementation's parser: integers beyond 2^24 in a style sheet are rounded, so the end-to-end documents stay below; the direct calls cover them",
 			"display:none <li> and the reversed attribute are outside the HTML-list family",
 		},
